@@ -943,6 +943,16 @@ func (c *Core) handleCancelableRequest(ctx context.Context, req *logical.Request
 							return nil, fmt.Errorf("cannot find namespace for token: %w", err)
 						}
 						deferredReqCtx := namespace.ContextWithNamespace(ctx, deferredReqNS)
+
+						// The wrapping token can only be unwrapped once. As we
+						// return early here, use it up and revoke it like a
+						// regular unwrap does, so that the deferred request
+						// cannot be executed again with the same token.
+						if _, err := c.tokenStore.UseTokenByID(deferredReqCtx, tokenEntry.ID); err != nil {
+							return nil, fmt.Errorf("error decrementing wrapping token's use-count: %w", err)
+						}
+						defer c.tokenStore.revokeOrphan(deferredReqCtx, tokenEntry.ID)
+
 						return c.handleCancelableRequest(deferredReqCtx, deferredReq)
 					}
 				}
